@@ -373,12 +373,9 @@ def r5(cx, rec):
     for wb in wcalls:
         for sb, t in H.outcome_edges(wb).get('ok', []):
             okreg |= H.only_via_edge((sb, t))
-    for f, bb in C.callers(F, bpath):
+    for f, bb, arg in (C.flag_sites(F, bpath, sel[0]) if sel is not None else [(f, bb, None) for f, bb in C.callers(F, bpath)]):
         e = f.expr_call(bb)
         if sel is not None:
-            params = [v['n'] for v in F.fn(bpath).raw['vars'] if 'arg' in v]
-            pi = params.index(sel[0]) if sel[0] in params else None
-            arg = e[2][pi] if pi is not None and pi < len(e[2]) else None
             c = const_of(arg) if arg else None
             if c is None:
                 rec.violation('piecedone-nonconstant', f, bb, 'completion flag is not a constant: %s' % show(e)[:100])
